@@ -22,6 +22,11 @@ def parse(path):
             rows.append((m.group(1), "-", -1, 0, ["patch no longer applies textually (later repair touches the same lines); see planned/ for an equivalent"]))
     return rows, suite
 
+EQUIV = {"c5d40a2": "P37", "62461d2": "P02", "3e9bb17": "P38", "321b0da": "P39",
+         "661230a": "P40", "30a64c1": "P03, P04", "a986ae1": "P41",
+         "b249c0d": "P42", "aa8b9ea": "P05",
+         "a749804": "none: the repaired code keeps plain dicts throughout, the defect cannot be re-introduced by a revert",
+         "13e309f": "the revert applies but is harmless since repair 4da2a76: stale neighbour entries can no longer exist"}
 idx = {e['commit']: e for e in json.load(open(f'{V}/mutants/reverts/index.json'))}
 rows, _ = parse(f'{V}/mutants/revert_matrix.txt')
 out += ["## 1. Reverts of the repairs (`mutants/reverts/<commit>.diff`)", "",
@@ -29,7 +34,11 @@ out += ["## 1. Reverts of the repairs (`mutants/reverts/<commit>.diff`)", "",
 for name, chk, ex, t, sigs in rows:
     subj = idx.get(name, {}).get('subject', '')[:70]
     res = {1: "**caught**", 0: "not detected", -1: "n/a"}[ex]
-    out.append(f"| {name} | {subj} | {chk} | {res} | {t} | {'; '.join(sigs)[:140]} |")
+    note = '; '.join(sigs)[:140]
+    if ex != 1 and name in EQUIV:
+        note = ("patch no longer applies (later repairs touch the same lines); equivalent re-introduction: "
+                if ex == -1 else "") + EQUIV[name]
+    out.append(f"| {name} | {subj} | {chk} | {res} | {t} | {note} |")
 rows, suite = parse(f'{V}/mutants/planned_matrix.txt')
 out += ["", "## 2. Planned single-site mutants (`mutants/planned/*.diff`)", "",
         "| mutant | suite | check | result | s | first signatures |", "|---|---|---|---|---|---|"]
@@ -37,10 +46,23 @@ for name, chk, ex, t, sigs in rows:
     res = {1: "**caught**", 0: "not detected", -1: "n/a"}[ex]
     out.append(f"| {name} | {suite.get(name, '?')[:40]} | {chk} | {res} | {t} | {'; '.join(sigs)[:140]} |")
 out += ["", "## 3. Changes written by independent sub-agents (`seeded/<id>/`)", "",
-        "| id | what (agent's summary) | needs | suite | demo without / with patch | checks |", "|---|---|---|---|---|---|"]
+        "Three rounds (ids `-agent-k`, `-agent-r2-k`, `-agent-r3-k`). 'first run' is the result of the check of the change's own property as it stood when the change was first verified; 'now' is the re-verification of all kept changes against the final checks and the final `/repo` HEAD. Retired changes: `seeded-retired/README.md`.", "",
+        "| id | what (agent's summary) | needs | suite | demo without / with patch | first run | now |", "|---|---|---|---|---|---|---|"]
+n_total = n_now = n_first_missed = 0
 for f in sorted(glob.glob(f'{V}/seeded/*/meta.json')):
     m = json.load(open(f)); vb = m['verified_by_me']; am = m.get('agent_meta', {})
-    det = "; ".join(f"{p}: {'**caught**' if v['exit'] == 1 else 'not detected' if v['exit'] == 0 else 'harness error'} ({v['seconds']} s)" for p, v in vb.get('checks', {}).items())
-    out.append(f"| {vb['name']} | {str(am.get('summary', ''))[:160]} | {str(am.get('needs', ''))[:160]} | {vb.get('suite_tail', '')[:30]} | {vb.get('demo_without_patch_exit')} / {vb.get('demo_with_patch_exit')} | {det} |")
+    pid = m.get('breaks_property') or vb.get('property')
+    def fmt(v):
+        return "; ".join(f"{p}: {'**caught**' if c['exit'] == 1 else 'not detected' if c['exit'] == 0 else 'harness error'} ({c['seconds']} s)" for p, c in v.get('checks', {}).items())
+    hist = [h for h in m.get('earlier_verifications', []) if h.get('checks') and h.get('demo_with_patch_exit') not in (0, None)]
+    first = hist[0] if hist else vb
+    fm = first.get('checks', {}).get(pid, {}).get('exit')
+    n_total += 1
+    if any(c['exit'] == 1 for c in vb.get('checks', {}).values()):
+        n_now += 1
+    if fm == 0:
+        n_first_missed += 1
+    out.append(f"| {vb['name']} | {str(am.get('summary', ''))[:160]} | {str(am.get('needs', ''))[:160]} | {vb.get('suite_tail', '')[:30]} | {vb.get('demo_without_patch_exit')} / {vb.get('demo_with_patch_exit')} | {'missed' if fm == 0 else 'caught' if fm == 1 else '?'} | {fmt(vb)} |")
+out += ["", f"Kept changes: {n_total}; caught by a quick check now: {n_now}; missed by the check of their property when first verified (and the reason for an extension of a generator or oracle, see DESIGN.md 8.5): {n_first_missed}."]
 open(f'{V}/mutants/REPORT.md', 'w').write("\n".join(out) + "\n")
 print("written", len(out), "lines")
